@@ -216,7 +216,7 @@ func ExplainGpos(fontInfo *sfnt.Font) []string {
 
 			case *gtab.Gpos2_2:
 				checkType(2)
-				ee.w.WriteString("\n\t")
+				ee.newLine()
 				ee.w.WriteRune('/')
 				ee.writeGlyphList(l.Cov.Glyphs())
 				ee.w.WriteRune('/')
@@ -273,7 +273,8 @@ func ExplainGpos(fontInfo *sfnt.Font) []string {
 				checkType(4)
 				markGlyphs := l.MarkCov.Glyphs()
 				for i, gid := range markGlyphs {
-					ee.w.WriteString("\n\tmark ")
+					ee.newLine()
+					ee.w.WriteString("mark ")
 					ee.writeGlyph(gid)
 					ee.w.WriteRune(':')
 					rec := l.MarkArray[i]
@@ -283,7 +284,8 @@ func ExplainGpos(fontInfo *sfnt.Font) []string {
 
 				baseGlyphs := l.BaseCov.Glyphs()
 				for i, gid := range baseGlyphs {
-					ee.w.WriteString("\n\tbase ")
+					ee.newLine()
+					ee.w.WriteString("base ")
 					ee.writeGlyph(gid)
 					ee.w.WriteRune(':')
 					anchors := l.BaseArray[i]
@@ -361,6 +363,14 @@ func newExplainer(fontInfo *sfnt.Font) *explainer {
 		w:      &strings.Builder{},
 		mapped: mappings,
 		names:  names,
+	}
+}
+
+// newLine starts a new line, unless the output is at the start of a line
+// already (after the separator between two subtables).
+func (ee *explainer) newLine() {
+	if !strings.HasSuffix(ee.w.String(), "\n\t") {
+		ee.w.WriteString("\n\t")
 	}
 }
 
